@@ -220,63 +220,90 @@ def main(argv):
                     pp["V"] = 0.0
                     if pp.get("q", 0.0) != 0:
                         pp["q"] = 1e-300      # no other excitation than the driven terminal
-            got = {}
-            first = None
-            for drive in (0, 1):
-                p = copy.deepcopy(p0)
-                if kind == "m":
-                    p.circprops[drive]["I_re"] = 1.0
-                else:
-                    for c in p.circprops:
-                        if c["name"] == names[drive]:
-                            c["V"] = 1.0
-                run = Run(build, work, "r%d_%d" % (t, drive), p)
-                if first is None:
-                    if run.mesh() != 0:
+            def couplings(p0_, tagname):
+                got = {}
+                first = None
+                runs_ = []
+                for drive in (0, 1):
+                    p = copy.deepcopy(p0_)
+                    if kind == "m":
+                        p.circprops[drive]["I_re"] = 1.0
+                    else:
+                        for c in p.circprops:
+                            if c["name"] == names[drive]:
+                                c["V"] = 1.0
+                    run = Run(build, work, "r%d_%s_%d" % (t, tagname, drive), p)
+                    runs_.append(run)
+                    if first is None:
+                        if run.mesh() != 0:
+                            break
+                        first = run
+                    else:
+                        for e in (".node", ".ele", ".edge", ".pbc"):
+                            shutil.copy(first.snap(e), run.base + e)
+                    if run.solve() != 0:
                         break
-                    first = run
-                else:
-                    for e in (".node", ".ele", ".edge", ".pbc"):
-                        shutil.copy(first.snap(e), run.base + e)
-                if run.solve() != 0:
-                    break
-                s = lua_post.Session(kind, "p" + femmio.EXT[kind], analyze=False)
-                s.conductor("t", names[1 - drive])
-                rc, out, raw = s.run(build, run.dir)
-                if rc != 0 or "t" not in out:
-                    break
-                got[drive] = out["t"][2 if kind == "m" else 1]
-                s2 = lua_post.Session(kind, "p" + femmio.EXT[kind], analyze=False)
-                s2.conductor("t", names[drive])
-                rc, out, raw = s2.run(build, run.dir)
-                got[("self", drive)] = out["t"][2 if kind == "m" else 1] if "t" in out else None
+                    s = lua_post.Session(kind, "p" + femmio.EXT[kind], analyze=False)
+                    s.conductor("t", names[1 - drive])
+                    rc, out, raw = s.run(build, run.dir)
+                    if rc != 0 or "t" not in out:
+                        break
+                    got[drive] = out["t"][2 if kind == "m" else 1]
+                    s2 = lua_post.Session(kind, "p" + femmio.EXT[kind], analyze=False)
+                    s2.conductor("t", names[drive])
+                    rc, out, raw = s2.run(build, run.dir)
+                    got[("self", drive)] = out["t"][2 if kind == "m" else 1] if "t" in out else None
+                return got, runs_
+            got, pair_runs = couplings(p0, "a")
             ck.case(("reciprocity", kind, axi), nontrivial=True)
             if len([k for k in got if isinstance(k, int)]) == 2 and got[0] is not None and got[1] is not None:
                 stats["reciprocity_pairs"] += 1
                 sc = max(abs(got.get(("self", 0)) or 0), abs(got.get(("self", 1)) or 0), abs(got[0]), abs(got[1]), 1e-300)
                 err = abs(got[0] - got[1]) / sc
                 stats["worst_reciprocity_error"] = max(stats["worst_reciprocity_error"], err)
-                if err > 1e-6:
+                mesh_level = False
+                if err > 1e-6 and kind == "m" and axi:
                     # axisymmetric magnetics: the flux-linkage integrals of the post-processor are not the reaction of the
-                    # assembled (modified-potential) matrix, so the discrete couplings agree only to mesh accuracy
-                    ck.violation("reciprocity:m:axi:mesh-level" if (kind == "m" and axi and err < 1e-2) else
+                    # assembled (modified-potential) matrix, so the discrete couplings agree only to mesh accuracy — which is decided,
+                    # not assumed: the same pair on a mesh four times as fine must show less than half the asymmetry (one halving is not enough on
+                    # the coarsest meshes, where the error is not yet in its asymptotic range)
+                    pf = copy.deepcopy(p0)
+                    for lab_ in pf.labels:
+                        if lab_["meshsize"] > 0:
+                            lab_["meshsize"] *= 0.25
+                    gf, _ = couplings(pf, "f")
+                    if gf.get(0) is not None and gf.get(1) is not None:
+                        scf = max(abs(gf.get(("self", 0)) or 0), abs(gf.get(("self", 1)) or 0), abs(gf[0]), abs(gf[1]), 1e-300)
+                        errf = abs(gf[0] - gf[1]) / scf
+                        stats.setdefault("axi_asymmetry_coarse_fine", []).append((err, errf))
+                        mesh_level = errf < 0.5 * err and err < 0.2
+                if err > 1e-6:
+                    ck.violation("reciprocity:m:axi:mesh-level" if mesh_level else
                                  "reciprocity:%s:%s" % (kind, "axi" if axi else "planar"),
                                  "%s %s: coupling 1->2 = %.9g, 2->1 = %.9g (self terms %.3g, %.3g)" % (kind, "axisymmetric" if axi else "planar", got[0], got[1],
                                                                                                          got.get(("self", 0)) or 0, got.get(("self", 1)) or 0),
-                                 dict(kind=kind, axi=axi, files=run.files()))
+                                 dict(kind=kind, axi=axi, drive1=pair_runs[0].files() if pair_runs else None, drive2=pair_runs[1].files() if len(pair_runs) > 1 else None))
         # ---- a time-harmonic solve at vanishing frequency equals the static one
         for t, axi in enumerate([False, True]):
             p0 = base_problem("m", rng, axi, harmonic=True)
             e1 = excite(p0, "m", rng, 1)
             e1["Hc"] = {i: 0.0 for i in e1["Hc"]}      # permanent magnets are a DC-only excitation (ignored by the AC solver)
             ps = apply(p0, "m", e1)
+            # regions that belong to a circuit are made non-conducting for this pair: with a massive conductor in a series circuit the
+            # harmonic formulation carries a voltage unknown whose equation degenerates as omega -> 0, and the complex solver then
+            # returns with true residuals of 1e-2 (observed at 1e-16 Hz; recorded under "observed, not claimed" in DESIGN.md)
+            for lab_ in ps.labels:
+                if lab_["circ"] >= 0:
+                    ps.blockprops[lab_["block"]]["Sigma"] = 0.0
             ph = copy.deepcopy(ps)
-            # "vanishing": far below the magnetic diffusion frequency of the drawing, omega*sigma*mu*L^2 = 1e-7
+            # "vanishing": far below the magnetic diffusion frequency of the drawing, omega*sigma*mu*L^2 = 1e-11
             import math
             L = max(max(abs(n["x"]), abs(n["y"])) for n in ps.nodes) * femmio.UNIT_M[ps.units]
             smax = max([m.get("Sigma", 0.0) for m in ps.blockprops] + [0.0]) * 1e6
             mumax = max(max(m["Mu_x"], m["Mu_y"]) for m in ps.blockprops)
-            ph.freq = min(1e-4, 1e-7 / (2 * math.pi * max(smax, 1e-30) * 4e-7 * math.pi * mumax * L * L))
+            # (the potential per unit current density can exceed mu*L^2 by orders of magnitude when the return path is far away:
+            # a margin of 1e4 on the estimate keeps the induced reaction below 1e-7 of the static field)
+            ph.freq = min(1e-4, 1e-11 / (2 * math.pi * max(smax, 1e-30) * 4e-7 * math.pi * mumax * L * L))
             rs = Run(build, work, "vf%d_s" % t, ps)
             rh = Run(build, work, "vf%d_h" % t, ph)
             if rs.mesh() != 0:
